@@ -232,6 +232,44 @@ def PassKind.wellFormed : PassKind → Bool
   | .coerce2 _ (.int 0) => false
   | _ => true
 
+
+/-! ## The repaired classifier (proposed in fixes/C09-1.diff)
+
+Identical to `getTypeInfo` except that the two-eightbyte split is taken at the first scalar whose REAL offset
+is ≥ 8 and the second half is `IntType((Size-8)*8)`.  Kept next to the model of the current code so that the
+check can tell which of the two the working tree implements (the correspondence accepts exactly one of them
+for ALL inputs). -/
+
+def splitIndexReal (elems : List Elem) : Nat := (elems.takeWhile fun e => e.1 < 8).length
+
+def subTypeFixed (size : Nat) (subs : List Scalar) (left : Bool) : RegTy :=
+  match subs with
+  | [s] => s.regTy
+  | _ =>
+    if subs = [.f32, .f32] then .v2f32
+    else if left then .int 8
+    else .int (size - 8)
+
+def splitClassifyFixed (v : View) : PassKind :=
+  .coerce2 (subTypeFixed v.size (v.types.take (splitIndexReal v.elems)) true)
+           (subTypeFixed v.size (v.types.drop (splitIndexReal v.elems)) false)
+
+def getTypeInfoFixed (v : View) : PassKind :=
+  if v.types.length ≥ 2 then
+    if v.size > 16 then .memory
+    else if v.size ≤ 8 then smallClassify v.size v.types
+    else
+      match v.types with
+      | [a, b] =>
+        if a.size = 8 ∨ b.size = 8 then .coerce2 a.regTy b.regTy
+        else splitClassifyFixed v
+      | _ => splitClassifyFixed v
+  else .direct
+
+def classifyFixedV (v : View) (isRet : Bool) : PassKind :=
+  if v.size = 0 then (if isRet then .direct else .void)
+  else getTypeInfoFixed v
+
 /-! ## The rewritten signature (`transformFuncType`) and LLVM's x86-64 convention for it -/
 
 structure Sig where
@@ -244,26 +282,30 @@ inductive LArg where
   | byval (size align : Nat)
 deriving DecidableEq, Repr
 
-/-- parameters that replace one original parameter -/
-def lowerParamV (v : View) : List LArg :=
-  match classifyV v false with
+/-- parameters that replace one original parameter, for a classifier `cls` -/
+def lowerParamC (cls : View → Bool → PassKind) (v : View) : List LArg :=
+  match cls v false with
   | .void => []
   | .direct => v.types.map fun s => .scalar s.regTy     -- LLVM passes a first-class aggregate leaf by leaf (≤ 1 leaf here)
   | .coerce r => [.scalar r]
   | .coerce2 r1 r2 => [.scalar r1, .scalar r2]
   | .memory => [.byval v.size v.align]
 
+def lowerParamV (v : View) : List LArg := lowerParamC classifyV v
+
 inductive LRet where
   | void | sret | regs (rs : List RegTy)
 deriving DecidableEq, Repr
 
-def lowerRetV (v : View) : LRet :=
-  match classifyV v true with
+def lowerRetC (cls : View → Bool → PassKind) (v : View) : LRet :=
+  match cls v true with
   | .void => .regs []                                   -- (unreachable: results are never AttrVoid here)
   | .direct => .regs (v.types.map Scalar.regTy)
   | .coerce r => .regs [r]
   | .coerce2 r1 r2 => .regs [r1, r2]
   | .memory => .sret
+
+def lowerRetV (v : View) : LRet := lowerRetC classifyV v
 
 inductive Loc where
   | gpr (i : Nat)      -- parameters: i-th of RDI RSI RDX RCX R8 R9; results: i-th of RAX RDX
@@ -299,6 +341,10 @@ def ccArgs : List LArg → St → List Loc × St
   | [], st => ([], st)
   | a :: as, st => ((ccArg a st).1 ++ (ccArgs as (ccArg a st).2).1, (ccArgs as (ccArg a st).2).2)
 
+def implPlaceArgsC (cls : View → Bool → PassKind) : List View → St → List (List Loc)
+  | [], _ => []
+  | v :: vs, st => (ccArgs (lowerParamC cls v) st).1 :: implPlaceArgsC cls vs (ccArgs (lowerParamC cls v) st).2
+
 def implPlaceArgs : List View → St → List (List Loc)
   | [], _ => []
   | v :: vs, st => (ccArgs (lowerParamV v) st).1 :: implPlaceArgs vs (ccArgs (lowerParamV v) st).2
@@ -312,14 +358,16 @@ structure Placement where
   args : List (List Loc)     -- per original parameter: one location per eightbyte
 deriving DecidableEq, Repr
 
-def implRet (r : Option View) : RetPlace :=
+def implRetC (cls : View → Bool → PassKind) (r : Option View) : RetPlace :=
   match r with
   | none => .void
   | some v =>
-    match lowerRetV v with
+    match lowerRetC cls v with
     | .void => .void
     | .sret => .sret
     | .regs rs => .regs (ccArgs (rs.map .scalar) ⟨0, 0, 0⟩).1
+
+def implRet (r : Option View) : RetPlace := implRetC classifyV r
 
 /-- where every eightbyte of every argument ends up on the current tree -/
 def implPlaceV (ret : Option View) (params : List View) : Placement :=
@@ -327,6 +375,12 @@ def implPlaceV (ret : Option View) (params : List View) : Placement :=
     args := implPlaceArgs params ⟨(if implRet ret = .sret then 1 else 0), 0, 0⟩ }
 
 def implPlace (sig : Sig) : Placement := implPlaceV (sig.ret.map CType.view) (sig.params.map CType.view)
+
+/-- the same pipeline for another classifier (used by the driver for the repaired variant) -/
+def implPlaceC (cls : View → Bool → PassKind) (sig : Sig) : Placement :=
+  { ret := implRetC cls (sig.ret.map CType.view),
+    args := implPlaceArgsC cls (sig.params.map CType.view)
+      ⟨(if implRetC cls (sig.ret.map CType.view) = .sret then 1 else 0), 0, 0⟩ }
 
 /-! ## C strings (`runtime/internal/runtime/z_string.go`: `CStrCopy`, `StringFromCStr`, `StringFrom`; `c.Strlen`) -/
 
